@@ -59,7 +59,7 @@ TStart ==
 
 TMerge ==
   /\ IsEvent("Merge") /\ st = "run"
-  /\ Merge
+  /\ MergePair(Key(Ev.lhs, Ev.rhs))          \* = Merge restricted to the recorded pair (linear in the number of live pairs)
   /\ LET m == merges'[Len(merges')] IN
        /\ {m.lhs, m.rhs} = {Ev.lhs, Ev.rhs}
        /\ m.dist = Ev.dist
